@@ -28,3 +28,44 @@ Proof. exact AgentMeets.model_meets_C17. Qed.
 Print Assumptions C17_model_meets_monitor.
 Theorem C17_every_step_judged : forall mc cc ops c s vs, In vs (run_mon mc cc c s ops) -> exists b cl, In (17%N, b, cl) vs.
 Proof. intros mc cc ops c s vs H. apply (AgentMeets.run_mon_judged mc cc ops c s vs 17 H). cbn. tauto. Qed.
+
+(* ---- the integrity bookkeeping the mechanisms call (TransportIntegrity, stun-agent/src/integrity.rs): the Rust text of new,
+   discard_message, compute_message_integrity and signal_protection_violated_on_timeout, translated by tools/rs2v.py on every
+   run (Generated/Code.v), equals Model.discard_message / Model.compute_mi / Model.mem, Model.del for every state and message
+   (Proofs/CodeAgreeIntegrity.v). HashSet<TransactionId> is a list under set semantics (set_insert / set_remove / set_mem of
+   Base/GRes.v are Model.ins / del / mem); a message is (class, transaction id); validate_message_integrity is an oracle
+   argument of the generated function: the agreement holds for every oracle that answers this call as the abstract model
+   does (a MAC verifies iff it was made with the verifier's key; byte level: C04), for any encodings of attributes / keys *)
+From Rustun Require Import Base.GRes Generated.Code Proofs.CodeAgreeIntegrity.
+Theorem C17_code_integrity_is_model :
+  (forall rel : bool, gen_TransportIntegrity_new rel = CodeAgreeIntegrity.ti rel [])
+  /\ (forall (rel : bool) (mk : list Model.txid) (m : Model.msg),
+        gen_TransportIntegrity_discard_message (CodeAgreeIntegrity.ti rel mk) (CodeAgreeIntegrity.msg_abs m)
+        = GRes.GOk (CodeAgreeIntegrity.ierr_code (fst (Model.discard_message rel mk m)),
+                    CodeAgreeIntegrity.ti rel (snd (Model.discard_message rel mk m))))
+  /\ (forall (enc : Model.attr -> N) (kenc : Model.keyd -> N) (oracle : N -> N -> list N -> bool)
+             (rel : bool) (mk : list Model.txid) (key : Model.keyd) (integrity : option Model.attr) (raw : list N) (m : Model.msg),
+        (forall a : Model.attr, integrity = Some a -> oracle (enc a) (kenc key) raw = Model.keyd_eqb (Model.mac_key a) key) ->
+        gen_TransportIntegrity_compute_message_integrity (CodeAgreeIntegrity.ti rel mk) (kenc key) (option_map enc integrity) raw
+          (CodeAgreeIntegrity.msg_abs m) oracle
+        = GRes.GOk (CodeAgreeIntegrity.res_code (fst (Model.compute_mi rel mk key integrity m)),
+                    CodeAgreeIntegrity.ti rel (snd (Model.compute_mi rel mk key integrity m))))
+  /\ (forall (rel : bool) (mk : list Model.txid) (id : N),
+        gen_TransportIntegrity_signal_protection_violated_on_timeout (CodeAgreeIntegrity.ti rel mk) id
+        = GRes.GOk (Model.mem id mk, CodeAgreeIntegrity.ti rel (Model.del id mk))).
+Proof. exact CodeAgreeIntegrity.code_integrity_is_model. Qed.
+Print Assumptions C17_code_integrity_is_model.
+
+(* ---- "when the client rejects a received buffer (undecodable bytes, ...)": bytes that are not a STUN message are rejected by
+   the model with the client EXACTLY as before (no marker exception), and the clause Monitors.mon_C17_undecodable, by which
+   the implementation is judged on every such buffer of the agent suite, holds of every model step *)
+From Rustun Require Import Proofs.AgentMeets5.
+Theorem C17_undecodable_changes_nothing : forall (c:Model.client) (now:N) (w:Model.msg),
+  Model.step c (Model.Recv now false w) = (c, Model.RInternal, []).
+Proof. exact AgentMeets5.undecodable_changes_nothing. Qed.
+Theorem C17_model_meets_undecodable_monitor : forall mc c s used o c' rep evs,
+  AgentMeets.R mc c s used -> Model.step c o = (c', rep, evs) ->
+  Monitors.mon_C17_undecodable s (AgentMeets.mop_of o rep) (AgentMeets.obs_of c c' o rep evs) = true.
+Proof. exact AgentMeets5.step_C17_undecodable. Qed.
+Print Assumptions C17_undecodable_changes_nothing.
+Print Assumptions C17_model_meets_undecodable_monitor.
